@@ -853,6 +853,17 @@ def install_jwe(cfg):
         st = _bytes(interp, a[0], "decompress")
         mx = a[1] if len(a) > 1 else kw.get("max_length", 0)
         wb = z3.IntVal(o.f["wbits"])
+        if o.f.get("E") is not None:
+            # a further call without new input returns pending output (at most max_length octets)
+            if not ctx.entails(z3.Length(st) == 0):
+                raise Unsupported("second decompress call with new input")
+            E, pos = o.f["E"], o.f["pos"]
+            mt = interp.int_term(mx)
+            rest = z3.Length(E) - pos
+            r = ctx.fresh("pending_output", StringSort)     # = E[pos : pos + max_length]; only its length matters here
+            ctx.axiom(z3.Length(r) == z3.If(rest > mt, mt, z3.If(rest > 0, rest, 0)), "decompress('', m) returns min(m, pending) octets of pending output")
+            o.f["pos"] = pos + z3.Length(r)
+            return interp.mk("vbytes", r)
         if not ctx.branch(InflateOk(st, wb)):
             interp.raise_(zlib.error, "Error -3 while decompressing data")
         E = Inflate(st, wb)
@@ -862,13 +873,17 @@ def install_jwe(cfg):
             return interp.mk("vbytes", E)
         mt = interp.int_term(mx)
         over = z3.Length(E) > mt
-        r = z3.If(over, z3.SubString(E, 0, mt), E)
+        take = z3.Function("Take", S_, I_, S_)(E, mt)        # E[:max_length] (uninterpreted: only its length matters)
+        ctx.axiom(z3.Implies(over, z3.Length(take) == mt), "decompress(s, m) returns exactly m octets when more are available")
+        r = z3.If(over, take, E)
         tail_nonempty = ctx.fresh("unconsumed_tail_nonempty", BoolSort)
         # zlib may hold pending *output* without pending input: a non-empty unconsumed_tail implies the limit
         # was hit, but the converse does not hold (measured: 256 001..256 258 compressible octets)
         ctx.axiom(z3.Implies(tail_nonempty, over), "unconsumed_tail non-empty => output was cut at max_length")
         o.f["tail"] = tail_nonempty
         o.f["over"] = over
+        o.f["E"] = E
+        o.f["pos"] = z3.If(over, mt, z3.Length(E))
         return interp.mk("vbytes", r)
     fm[("decompressor", "decompress")] = decompress
 
